@@ -68,10 +68,9 @@ def explain_unsat_timed_once(op_signal, intervals, a, b):
     op_intervals = []
     a = int(a)
     b = int(b)
-    if intervals:
-        begin, end = intervals[0]
-        exp_begin = min(begin + a, len(op_signal) - 1)
-        exp_end = min(end + b, len(op_signal) - 1)
+    for begin, end in intervals:
+        exp_begin = max(begin - b, 0)
+        exp_end = max(end - a, 0)
         op_intervals.append([exp_begin, exp_end])
     op_intervals = interval_union(op_intervals)
     return op_intervals
